@@ -141,6 +141,7 @@ func main() {
 	ev.MainIsolated("C14", "exploration", 40*time.Minute, func(r *ev.Run) {
 		r.Rule("seeded (original command, LOGNAME, SSH_CONNECTION, argv) tuples: JSON attribute objects, other JSON values, legacy texts (with and without a version), odd version strings, smuggling attempts, empty, bytes; LOGNAME empty/hostile; connection strings empty, leading space, IPv6, zone ids, tabs, malformed; argv of 0..8 arguments with embedded spaces. distinct_nontrivial = distinct inputs for which NewReqParam SUCCEEDED and every clause of the oracle was evaluated")
 		r.Assume("reference decoders for 'what the client declared': encoding/json into a mirror struct, reference legacy tokenizer", "40-bit ids: at most one duplicate per 5000-call window, never two equal consecutive ids")
+		ring := ev.NewRing("NewReqParam", r.Seed, 43)
 		n := r.Pick(20000, 1000000)
 		var lastID string
 		window := map[string]int{}
@@ -164,6 +165,14 @@ func main() {
 			}
 			env := map[string]string{"SSH_ORIGINAL_COMMAND": in.Cmd, "LOGNAME": in.LogName, "SSH_CONNECTION": in.Conn}
 			r.Eval(1)
+			evalOnce := func() string {
+				q, e := csr.NewReqParam(func(k string) string { return env[k] }, func() []string { return in.Argv })
+				if e != nil || q == nil {
+					return "error"
+				}
+				aj, _ := json.Marshal(q.Attrs)
+				return fmt.Sprintf("%s|%s|%s|%s|%s|%s|%v|%s", q.LogName, q.ClientIP, q.NamespacePolicy, q.HandlerName, q.ReqUser, q.ReqHost, q.SSHClientVersion, aj)
+			}
 			var p *csr.ReqParam
 			var err error
 			if r.Guard(c, "NewReqParam", in, func() {
@@ -171,6 +180,13 @@ func main() {
 			}) {
 				continue
 			}
+			ring.Add(r, c, evalOnce, func() string {
+				if err != nil || p == nil {
+					return "error"
+				}
+				aj, _ := json.Marshal(p.Attrs)
+				return fmt.Sprintf("%s|%s|%s|%s|%s|%s|%v|%s", p.LogName, p.ClientIP, p.NamespacePolicy, p.HandlerName, p.ReqUser, p.ReqHost, p.SSHClientVersion, aj)
+			}(), fmt.Sprintf("%+v", in))
 			if err != nil {
 				r.Count("refused ("+shape+")", 1)
 				if p != nil {
